@@ -48,6 +48,17 @@ func runAlloc(fields []string) string {
 			flags, _ := strconv.Atoi(a[3])
 			hid, _ := strconv.Atoi(a[4])
 			_, _ = f.Handle(a[1], unhx(a[2]), h, routeOpts(flags, hid)...)
+		case a[0] == "T" && len(a) == 2:
+			// a partial (or full) Truncate in the history: the surviving routes keep their allocation-free routing
+			var ms []string
+			for _, m := range strings.Split(a[1], "+") {
+				if m != "" {
+					ms = append(ms, m)
+				}
+			}
+			_ = f.Updates(func(txn *fox.Txn) error { return txn.Truncate(ms...) })
+		case a[0] == "D" && len(a) == 3:
+			_, _ = f.Delete(a[1], unhx(a[2]))
 		case a[0] == "L" && len(a) == 4:
 			probes = append(probes, [3]string{a[1], unhx(a[2]), unhx(a[3])})
 		}
@@ -169,6 +180,32 @@ func genAlloc(r *Rng, tier string, n int, emit func(string)) {
 		}
 		for i, p := range pats {
 			ops = append(ops, fmt.Sprintf("H,%s,%s,%d,%d", methods[0], hx(p), Pick(cr, []int{0, 0, 1}), i+1))
+		}
+		if cr.Chance(25) {
+			// routes with many parameters under a second method, which is then truncated (and sometimes refilled, or a route
+			// of the first method deleted): the routes that survive keep their parameters
+			other := "POST"
+			if methods[0] == "POST" {
+				other = "PUT"
+			}
+			for i := 0; i < 1+cr.Intn(3); i++ {
+				p := "/tr" + strconv.Itoa(i)
+				for j := 0; j < 2+cr.Intn(8); j++ {
+					p += "/{t" + strconv.Itoa(j) + "}"
+				}
+				ops = append(ops, fmt.Sprintf("H,%s,%s,0,%d", other, hx(p), 900+i))
+				if cr.Bool() {
+					pats = append(pats, p)
+					ops = append(ops, fmt.Sprintf("H,%s,%s,0,%d", methods[0], hx(p), 950+i))
+				}
+			}
+			ops = append(ops, "T,"+other)
+			if cr.Chance(40) {
+				ops = append(ops, fmt.Sprintf("H,%s,%s,0,%d", other, hx("/refill/{a}"), 990))
+			}
+			if cr.Chance(30) && len(pats) > 1 {
+				ops = append(ops, fmt.Sprintf("D,%s,%s", methods[0], hx(pats[0])))
+			}
 		}
 		for i := 0; i < 6+cr.Intn(8); i++ {
 			ops = append(ops, genProbe(cr, pats, methods))
